@@ -57,10 +57,18 @@ Shapes == {
   [pos |-> "groupsel", q |-> [SelQ(<<I(Col("g"), ""), I(Boom(Agg("sum", <<"a">>)), "v")>>, T, None) EXCEPT !.group = <<"g">>]],
   [pos |-> "distinctorder", q |-> [SelQ(<<I(Boom(Col("g")), "g")>>, T, None) EXCEPT !.distinct = TRUE,
                                      !.order = <<[key |-> <<"g">>, asc |-> FALSE]>>, !.limit = 1]],
+  [pos |-> "joinon",  q |-> [BaseQ EXCEPT !.from = [k |-> "join", type |-> "inner", kw |-> "", l |-> Table(<<"t">>, "x"), r |-> Table(<<"u">>, "y"),
+                                on |-> AndE(CmpE("<=", ColP(<<"x", "a">>), ColP(<<"y", "c">>)), Fn("boomt", <<LN(1)>>))]]],
+  [pos |-> "leftjoinon", q |-> [BaseQ EXCEPT !.from = [k |-> "join", type |-> "left", kw |-> "", l |-> Table(<<"t">>, "x"), r |-> Table(<<"u">>, "y"),
+                                on |-> AndE(Fn("boomt", <<LN(1)>>), CmpE(">", ColP(<<"x", "a">>), ColP(<<"y", "c">>)))]]],
   \* failures the query raises by itself on some row
   [pos |-> "raise_when", q |-> SelQ(<<I(A, ""), I(Fn("raise_when", <<CmpE(">", A, LN(3)), LS(<<98, 97, 100>>)>>), "")>>, T, None)],
   [pos |-> "raise_where", q |-> SelQ(<<I(A, ""), I(Fn("raise", <<LS(<<98, 97, 100>>)>>), "r")>>, T, CmpE(">", A, LN(3)))],
   [pos |-> "type_select", q |-> SelQ(<<I(Bin("+", A, Col("s")), "v")>>, T, CmpE(">", A, LN(3)))],
+  \* ... inside an operand of a comparison: an integer division by zero (a panic inside the engine), a type error
+  [pos |-> "panic_cmp",   q |-> SelQ(<<I(A, "")>>, T, CmpE("=", Bin("div", A, Bin("-", A, LN(3))), LN(1)))],
+  [pos |-> "type_cmp",    q |-> SelQ(<<I(A, "")>>, T, CmpE(">", Bin("+", A, Col("s")), LN(1)))],
+  [pos |-> "raise_cmp",   q |-> SelQ(<<I(A, "")>>, T, CmpE(">", Fn("if", <<CmpE(">", A, LN(3)), Fn("raise", <<LS(<<98>>)>>), A>>), LN(0)))],
   [pos |-> "type_where",  q |-> SelQ(<<I(A, "")>>, T, NotE(A))],
   [pos |-> "type_cte",    q |-> [SelQ(<<Star>>, Table(<<"c">>, ""), None) EXCEPT !.with = <<[name |-> "c", q |-> SelQ(<<I(Bin("*", Col("s"), LN(2)), "v")>>, T, CmpE(">", A, LN(3)))]>>]],
   [pos |-> "type_sub",    q |-> SelQ(<<I(A, ""), I(Sub(NQ(<<I(Un("-", LS(<<120>>)), "p")>>, None)), "s")>>, T, None)] }
